@@ -5,6 +5,7 @@ EXTENDS Invoke, TLC, Json, IOUtils
 T == ndJsonDeserialize(IOEnv.TRACE)
 VARIABLE x
 Spec == x = 0 /\ [][x' = x]_x
-Bad == {i \in 1..Len(T) : T[i].e = "call" /\ ~CallAllowed(T[i])}
+CONSTANT Kind    \* "call": C11's invocations | "cbcall": C12's callback calls
+Bad == {i \in 1..Len(T) : T[i].e = Kind /\ ~(IF Kind = "call" THEN CallAllowed(T[i]) ELSE CbAllowed(T[i]))}
 ASSUME PrintT(<<"RESULT", ToJson([bad |-> Bad, n |-> Len(T)])>>)
 =============================================================================
